@@ -27,10 +27,12 @@ BUDGET = {"quick": 900, "thorough": 3400}
 
 XTAL = {"NaCl": ("NaCl-prim-2", [[2, 0, 0], [0, 1, 0], [0, 0, 1]]), "wz": ("wurtzite-4", [[1, 0, 0], [0, 1, 0], [0, 0, 1]])}
 
-OPS = ["fcA", "fcB", "fcAc", "dsD1", "dsD2", "prodF", "prodC", "gen", "sym1", "symsg", "cut", "nacN", "nacW", "nacG",
+OPS = ["fcA", "fcB", "fcAc", "dsD1", "dsD2", "prodF", "prodC", "gen", "sym1", "symsg", "cut", "nacN", "nacW", "nacG", "nacG2",
        "m0", "m1", "copy", "qQ", "qM", "qB"]
 QUERIES = ("qQ", "qM", "qB")
-DEPTH = {"quick": {"NaCl": 3, "wz": 2}, "thorough": {"NaCl": 4, "wz": 3}}
+# (root history, depth) per system: searching from non-initial states reaches longer histories at the same cost
+ROOTS = {"quick": {"NaCl": [([], 2), (["fcA"], 3)], "wz": [(["fcA"], 2)]},
+         "thorough": {"NaCl": [([], 3), (["fcA"], 4), (["fcAc", "nacG", "qQ"], 3)], "wz": [([], 2), (["fcA"], 3)]}}
 
 _env = {}
 
@@ -63,7 +65,9 @@ def _setup(system, seed):
     env["m1"] = m0 * np.linspace(1.1, 1.6, len(m0))
     env["W"] = SC.nac_params(name, "wang")
     env["G"] = SC.nac_params(name, "gonze")
+    env["G"]["G_cutoff"] = 0.75  # smaller reciprocal sum: same code path, 3-4x cheaper (accuracy is C08's subject)
     G2 = SC.nac_params(name, "gonze")
+    G2["G_cutoff"] = 0.75
     G2["born"] = G2["born"] * 0.5
     env["G2"] = G2
     L = np.asarray(ph.supercell.cell)
@@ -89,10 +93,15 @@ def battery(ph, lite=False):
         ph.run_qpoints(QS[1:3], with_dynamical_matrices=True)
         d = ph.get_qpoints_dict()
         return {"freq": np.array(d["frequencies"]), "dm": np.array(d["dynamical_matrices"])}
-    ph.run_qpoints(QS, with_group_velocities=True, with_dynamical_matrices=True)
+    gl = _dmclass(ph) == "DynamicalMatrixGL"  # Gonze-Lee: group velocities are finite differences (6 extra D(q) per q)
+    qs = QS[:3] if gl else QS
+    ph.run_qpoints(qs, with_group_velocities=not gl, with_dynamical_matrices=True)
     d = ph.get_qpoints_dict()
     f1 = np.array(ph.get_frequencies(QS[1]))
-    return {"freq": np.array(d["frequencies"]), "dm": np.array(d["dynamical_matrices"]), "gv": np.array(d["group_velocities"]), "f1": f1}
+    out = {"freq": np.array(d["frequencies"]), "dm": np.array(d["dynamical_matrices"]), "f1": f1}
+    if not gl:
+        out["gv"] = np.array(d["group_velocities"])
+    return out
 
 
 def _cmp(a, b, tol=1e-9):
@@ -120,7 +129,7 @@ class Run:
         self.ph = _fresh(self.env)
         self.inputs = []   # (kind, live array handed to phonopy, pristine copy)
         self.origins = []  # objects that were copied from
-        self.model = {"fc": None, "nac": None, "masses": "m0", "ds": None}
+        self.modifier = {}  # input kind -> first operation after which the handed-in array differed
         self.error = None
 
     def give(self, kind, arr):
@@ -163,6 +172,12 @@ class Run:
         return out
 
     def apply(self, op):
+        self._apply(op)
+        for k, live, pristine in self.inputs:
+            if k not in self.modifier and not np.array_equal(live, pristine, equal_nan=True):
+                self.modifier[k] = op
+
+    def _apply(self, op):
         from vtk import phx
 
         ph, env = self.ph, self.env
@@ -182,7 +197,7 @@ class Run:
             ph.set_force_constants_zero_with_radius(env["rcut"])
         elif op == "nacN":
             ph.nac_params = None
-        elif op in ("nacW", "nacG"):
+        elif op in ("nacW", "nacG", "nacG2"):
             ph.nac_params = self.give_dict("nac_params", env[op[3:]])
         elif op in ("m0", "m1"):
             ph.masses = self.give("masses", env[op])
@@ -330,10 +345,28 @@ def run_history(system, seed, hist, check=True):
             fail("setter/masses", "masses getter does not return what was set")
         if "fc" in exp and exp["fc"] is not None and (ph.force_constants.shape != exp["fc"].shape or np.abs(ph.force_constants - exp["fc"]).max() > 1e-12):
             fail("setter/force_constants", "force_constants getter does not return what was set")
+    # (v) displaced supercells handed out agree with the current dataset (reading them builds a cache)
+    try:
+        ds = ph.dataset
+        if ds is not None and "first_atoms" in ds:
+            scs = ph.supercells_with_displacements
+            base = ph.supercell.positions
+            if scs is None or len(scs) != len(ds["first_atoms"]):
+                fail("stale/supercells_with_displacements", "number of displaced supercells %s != number of displacements %d" % (None if scs is None else len(scs), len(ds["first_atoms"])))
+            else:
+                for sc_, d_ in zip(scs, ds["first_atoms"]):
+                    u = sc_.positions - base
+                    w = np.zeros_like(u)
+                    w[d_["number"]] = d_["displacement"]
+                    if np.abs(u - w).max() > 1e-9:
+                        fail("stale/supercells_with_displacements", "displaced supercell does not match the dataset's displacement (max dev %.3g)" % np.abs(u - w).max())
+                        break
+    except Exception as e:
+        fail("raised/supercells_with_displacements", "%s: %s" % (type(e).__name__, str(e)[:200]))
     # (ii) arrays handed in are unmodified
     for kind, live, pristine in run.inputs:
         if not np.array_equal(live, pristine, equal_nan=True):
-            modifier = _who_modified(system, seed, hist, kind)
+            modifier = run.modifier.get(kind, "query")
             fail("alias-in/%s/modified-by-%s" % (kind, modifier), "array handed in as %s was modified (max change %.3g)" % (kind, np.nanmax(np.abs(live - pristine))))
     # (iii) arrays handed out do not alias internal state.  State-carrying getters are tried after every
     # transition, structural getters (cells, matrices) for histories of length <= 1 (they do not depend on history).
@@ -360,11 +393,19 @@ def run_history(system, seed, hist, check=True):
                 bad = "raised %s" % type(e).__name__
             if bad:
                 fail("alias-out/%s" % name, "overwriting the array returned by %s changes later answers (%s)" % (name, bad))
-                # the object is damaged now: rebuild it by replay for the next candidate
-                run2 = Run(system, seed)
-                for op in hist:
-                    run2.apply(op)
-                run, ph = run2, run2.ph
+                # the object is damaged now: try to repair through the alias and a rebuild, else rebuild by replay
+                repaired = False
+                try:
+                    arr[...] = saved
+                    ph.masses = np.array(ph.masses, float).copy()
+                    repaired = _cmp(battery(ph, lite=True), got_lite, 1e-9) is None
+                except Exception:
+                    repaired = False
+                if not repaired:
+                    run2 = Run(system, seed)
+                    for op in hist:
+                        run2.apply(op)
+                    run, ph = run2, run2.ph
     # (iv) copy() independence
     if hist and hist[-1] == "copy" and run.origins:
         org = run.origins[-1]
@@ -459,28 +500,30 @@ def explore(tier, seed, nproc, budget):
 
     groups = []
     results = {}
-    meta = {"alphabet": {"operations": OPS, "systems": list(XTAL), "depth": DEPTH[tier]}, "bound": "", "exhaustive": True,
+    meta = {"alphabet": {"operations": OPS, "systems": list(XTAL), "roots_and_depths": ROOTS[tier]}, "bound": "", "exhaustive": True,
             "not_covered": ["histories longer than the depth bound unless the search closed", "type-2 datasets", "random displacements / MLP state"]}
     capped = False
     levels = {}
     for system in XTAL:
-        init = run_history(system, seed, [], check=False) if False else None
-        # the initial state is computed in a worker too (the parent never imports phonopy's extension)
-        trans, stats = bfs.bfs(_Step(system), "init", OPS, DEPTH[tier][system], nproc, _winit, (seed,), budget_s=budget / len(XTAL), chunk=2)
-        levels[system] = stats
-        capped = capped or stats["capped"]
-        for hist, res in trans:
-            r = dict(res)
-            r.pop("enabled", None)
-            fl = r.pop("failures", [])
-            if not fl:
-                groups.append([{"system": system, "history": hist}])
-                results[len(groups) - 1] = [r]
-            for f in fl:
-                groups.append([{"system": system, "history": hist, "focus": f["sig"]}])
-                results[len(groups) - 1] = [f]
-    meta["bound"] = "all histories up to depth %s over %d operations, merged on the canonical key; per system: %s" % (
-        DEPTH[tier], len(OPS), json.dumps({s: {"states": v["states"], "closed": v["closed"], "levels": v["levels"]} for s, v in levels.items()}))
+        levels[system] = []
+        for root, depth in ROOTS[tier][system]:
+            trans, stats = bfs.bfs(_Step(system), "root", OPS, depth, nproc, _winit, (seed,), budget_s=budget / 4, chunk=2, root=root)
+            stats["root"] = root
+            stats["depth"] = depth
+            levels[system].append(stats)
+            capped = capped or stats["capped"]
+            for hist, res in trans:
+                r = dict(res)
+                r.pop("enabled", None)
+                fl = r.pop("failures", [])
+                if not fl:
+                    groups.append([{"system": system, "history": hist}])
+                    results[len(groups) - 1] = [r]
+                for f in fl:
+                    groups.append([{"system": system, "history": hist, "focus": f["sig"]}])
+                    results[len(groups) - 1] = [f]
+    meta["bound"] = "all histories root+<=depth over %d operations from each (root, depth) of %s, merged on the canonical key; %s" % (
+        len(OPS), json.dumps(ROOTS[tier]), json.dumps({s: [{"root": v["root"], "states": v["states"], "closed": v["closed"], "levels": v["levels"]} for v in vs] for s, vs in levels.items()}))
     meta["bfs"] = levels
     return groups, results, meta, capped
 
